@@ -32,12 +32,12 @@ SPEC = {
         "alloc = bytes requested with an input-dependent size (make/append/string conversion); fixed-size allocations per loop round are accounted by iters",
     ],
     "manifest": {
-        "text": "For every byte string and every chain of serializer.Deserializer primitives (incl. the callback-driven sequence/object/payload readers), every reader chunking and every stream Read* helper with every prefix width, and every JSON document against every target shape of MapDecode/JSONDecode: the call returns a value or an error and never panics (C02_deser_no_panic, C02_stream_no_panic, C02_json_no_panic; serix binary Decode over every schema: C02_no_panic), reports at most the bytes supplied (C02_deser_consumed_le, C02_stream_consumed_le, C02_consumed_le), allocates at most K*len resp. 5*len + 16 KiB bytes with explicit K = 1 + nesting depth (C02_alloc_linear, C02_stream_alloc_linear; a length field above the remaining input allocates nothing: C02_oversized_length_allocates_nothing) and iterates at most K*(len+1) times when sequence elements have positive size (C02_iters_linear, C02_stream_iters_linear). Models re-validated against the working tree on every run: ~27 000 mutated/hostile inputs and kind-mutated JSON documents, outcome class / consumed bytes / iteration counts / values compared line by line with the Lean driver, plus an independent Go oracle measuring panics, consumed bytes and TotalAlloc per call in an address-space-limited child process.",
+        "text": "For every byte string and every chain of serializer.Deserializer primitives (incl. the callback-driven sequence/object/payload readers), every reader chunking and every stream Read* helper with every prefix width, and every JSON document against every target shape of MapDecode/JSONDecode: the call returns a value or an error and never panics (C02_deser_no_panic, C02_stream_no_panic, C02_json_no_panic; serix binary Decode over every schema: C02_no_panic), reports at most the bytes supplied (C02_deser_consumed_le, C02_stream_consumed_le, C02_consumed_le), allocates at most K*len resp. 5*len + 16 KiB bytes with explicit K = 1 + nesting depth (C02_alloc_linear, C02_stream_alloc_linear; a length field above the remaining input allocates nothing: C02_oversized_length_allocates_nothing) and iterates at most K*(len+1) times when sequence elements have positive size (C02_iters_linear, C02_stream_iters_linear). KNOWN DEFECT of the tree (not repaired, reported as KNOWN-FINDING on every run): a sequence whose elements are ZERO bytes wide iterates, appends and allocates as often as its length prefix says (2^20 element decodes for 4 input bytes) - the iteration theorems carry the hypothesis `pos` precisely because of it (witness C02_zero_size_items_witness); zero-width MAP entries are bounded by the duplicate-key rejection and stay under the oracle. Models re-validated against the working tree on every run: ~27 000 mutated/hostile inputs and kind-mutated JSON documents, outcome class / consumed bytes / iteration counts / values compared line by line with the Lean driver, plus an independent Go oracle measuring panics, consumed bytes and TotalAlloc per call in an address-space-limited child process.",
         "note": "Trusted: Lean kernel; the three hand-written models (tie = differential execution); Go library string syntaxes as modelled. static/pos hypotheses are about the calling program (unsupported prefix type, zero-size sequence elements), witnessed by C02_unsupported_prefix_witness and C02_zero_size_items_witness.",
         "technique": "Lean 4 proofs by mutual structural induction over read programs / target types with explicit cost invariants + differential correspondence + Go resource oracle",
     },
     "assumptions": [
         "static: the chain names no length-prefix type (uint64) / type denotation (none in CheckTypePrefix) that the Deserializer rejects by panicking independently of the input",
-        "pos (iteration bounds only): every sequence / collection element has a positive minimum size",
+        "pos (iteration bounds only): every sequence / collection element has a positive minimum size - needed precisely because of the known defect that a sequence of ZERO-WIDTH elements ([]struct{}, [][0]byte, empty item callbacks) iterates and appends as often as its count field says (known_findings/C02.json, trigger zero-width-sequence-elements; Lean witness C02_zero_size_items_witness)",
     ],
 }
